@@ -817,6 +817,9 @@ func (c *Client) logs(ctx context.Context, url string, filter *glf.Filter, bm bl
 	if err != nil {
 		return fmt.Errorf("making logs request: %w", err)
 	}
+	if len(resp) != 2 {
+		return fmt.Errorf("eth_getLogs expected 2 responses got %d", len(resp))
+	}
 	var (
 		hresp = resp[0].(*headerResp)
 		lresp = resp[1].(*logResp)
